@@ -390,3 +390,37 @@ M('C18', 'module-global-call-counter', (MARG, "        rand_idx = random.randran
 M('C18', 'tree-imputer-system-random', (TI, "            random_index = random.randint(0, len(x_storage) - 1)", "            random_index = random.SystemRandom().randint(0, len(x_storage) - 1)"))
 M('C18', 'uniform-reservoir-numpy-default-rng', (UNI, "                rand_idx = random.randrange(self.size)", "                rand_idx = int(np.random.default_rng().integers(self.size))"))
 M('C18', 'numpy-global-for-slot', (UNI, "                rand_idx = random.randrange(self.size)", "                rand_idx = int(np.random.randint(self.size))"), kind='equivalent')
+
+# ---- C19 ---------------------------------------------------------------------------------------
+M('C19', 'outdated-reservoirs-kept', (TS, "            self._delete_outdated_reservoirs(feature_name, root_node)\n", ""))
+M('C19', 'reservoir-one-too-large', (TS, "size=self._leaf_reservoir_length, store_targets=False, constant_probability=1.0)", "size=self._leaf_reservoir_length + 1, store_targets=False, constant_probability=1.0)"))
+M('C19', 'default-insertion-probability', (TS, "size=self._leaf_reservoir_length, store_targets=False, constant_probability=1.0)", "size=self._leaf_reservoir_length, store_targets=False)"))
+M('C19', 'imputer-samples-other-leaf', (TI, "            storage = data_reservoir[leaf_id]\n", "            storage = data_reservoir[leaf_id]\n            storage = list(data_reservoir.values())[-1]\n"))
+M('C19', 'imputer-changes-unrequested', (TI, "            for feature_name in feature_subset:\n                if self.use_storage:", "            for feature_name in (self.storage_object.feature_names if len(feature_subset) == 2 else feature_subset):\n                if self.use_storage:"))
+M('C19', 'len-counts-features', (TS, "        self._seen_samples += 1\n", "            self._seen_samples += 1\n"))
+M('C19', 'stores-point-without-target-feature', (TS, "        data_reservoir[leaf_id].update(x)", "        data_reservoir[leaf_id].update(x_i)"))
+M('C19', 'deletes-only-on-every-third-new-leaf', (TS, "            self._delete_outdated_reservoirs(feature_name, root_node)\n", "            if len(data_reservoir) % 3 == 0:\n                self._delete_outdated_reservoirs(feature_name, root_node)\n"))
+M('C19', 'imputer-cat-sample-unobserved', (TI, "        feature_value = random.choices(population=feature_values, weights=feature_weights, k=n_samples)[0]", "        feature_value = random.choices(population=feature_values, weights=feature_weights, k=n_samples)[0] + (0.5 if random.random() < 0.2 else 0)"))
+M('C19', 'imputer-one-prediction-short', (TI, "        for _ in range(n_samples):\n            sampled_values = {}", "        for _ in range(max(n_samples - 1, 1)):\n            sampled_values = {}"))
+M('C19', 'reservoir-stores-copy', (TS, "        data_reservoir[leaf_id].update(x)", "        data_reservoir[leaf_id].update(dict(x))"), kind='equivalent')
+
+# ---- C20 ---------------------------------------------------------------------------------------
+M('C20', 'naive-variance', (W, """        self.N += 1
+        difference_1 = value_i - self.tracked_value
+        self.tracked_value += difference_1 / self.N
+        difference_2 = value_i - self.tracked_value
+        self.sum_squares += difference_1 * difference_2
+        return self
+""", """        self.N += 1
+        self._s1 = getattr(self, '_s1', 0) + value_i
+        self._s2 = getattr(self, '_s2', 0) + value_i * value_i
+        self.tracked_value = self._s1 / self.N
+        self.sum_squares = self._s2 - self._s1 * self._s1 / self.N
+        return self
+"""))
+M('C20', 'float32-accumulation', (W, "        self.tracked_value += difference_1 / self.N\n", "        self.tracked_value += difference_1 / self.N\n        if isinstance(self.tracked_value, float):\n            import numpy as _np\n            self.tracked_value = float(_np.float32(self.tracked_value))\n"))
+M('C20', 'smoothing-loses-offset', (ES, "self.tracked_value = (1 - self.alpha) * self.tracked_value + self.alpha * value_i", "self.tracked_value = (self.tracked_value * 1e6 * (1 - self.alpha) + self.alpha * value_i * 1e6) / 1e6 if not isinstance(value_i, float) else float((1 - self.alpha) * self.tracked_value + self.alpha * value_i + 1e9) - 1e9"))
+M('C20', 'pfi-mean-in-float32', (PFI, "avg_loss = np.mean(losses)", "avg_loss = np.mean(losses) if not isinstance(losses[0], float) else float(np.mean(np.asarray(losses, dtype=np.float32)))"))
+M('C20', 'sage-contribution-via-ratio', (INC, "                marginal_contribution = sample_loss - feature_loss", "                marginal_contribution = sample_loss - feature_loss if not isinstance(feature_loss, float) else (sample_loss / (feature_loss + 1e-300) - 1.0) * feature_loss"))
+M('C20', 'welford-alt-stable-update', (W, "self.sum_squares += difference_1 * difference_2", "self.sum_squares += difference_1 * difference_1 * (self.N - 1) / self.N"), kind='equivalent')
+M('C20', 'es-incremental-form', (ES, "self.tracked_value = (1 - self.alpha) * self.tracked_value + self.alpha * value_i", "self.tracked_value = self.tracked_value + self.alpha * (value_i - self.tracked_value)"), kind='equivalent')
